@@ -17,6 +17,17 @@ def connectivity(snap):
             out[k[6:]] = (bool(v.get('connected')), (a['top'], a['sub'], a['subsub']) if a and v.get('addr_known') else None)
     return out
 
+def near_miss(rng, cfg, present):
+    """a unique id that differs from a configured board's in exactly one byte (class bits, class extension, vendor, product) and is nobody's id"""
+    taken = {bytes(b['uid']) for b in cfg['boards']} | {bytes(u) for u in present.values()}
+    for _ in range(20):
+        base = bytearray(rng.choice(cfg['boards'])['uid'])
+        i = rng.choice([0, 0, 1, 2, 3, 4, 5, 6])
+        base[i] ^= rng.choice([0x40, 0x20, 0x08, 0x04, 0x01]) if i == 0 else rng.randrange(1, 256)
+        if bytes(base) not in taken:
+            return bytes(base)
+    return bytes([0x00, 0x02, 0x0D, 0xDD, 0xDD, rng.randrange(256), 0x01])
+
 def gen_scenario(ctx, k):
     rng = ctx.sub_rng('c15', k)
     cfg = cfggen.gen_config(rng, nboards=rng.randrange(1, 7), rich=False, with_initial=False, max_trains=1)
@@ -82,6 +93,8 @@ def gen_scenario(ctx, k):
             if newa in present or any(m.addr.get(x['id']) == newa for x in cfg['boards']) or (b and m.addr.get(b['id']) == (0, 0, 0)):
                 continue          # the address is taken (by a configured board or by an unknown node that logged on earlier)
             uid = b['uid'] if b else bytes([0x00, 0x02, 0x0D, 0xDD, 0xDD, i & 0xFF, 0x01])
+            if b is None and rng.random() < 0.5:
+                uid = near_miss(rng, cfg, present)       # one byte off a configured board: still an unknown node
             data = bytes([version, local]) + uid
             t = C('MSG_NODE_NEW')
             if b and m.connected(b['id']):
@@ -96,7 +109,7 @@ def gen_scenario(ctx, k):
         else:
             # lost notice for an unknown unique id
             announcer = rng.choice(ann)
-            data = bytes([version, rng.randrange(1, 128)]) + bytes([0x00, 0x04, 0x0D, 0xCC, 0xCC, i & 0xFF, 0x02])
+            data = bytes([version, rng.randrange(1, 128)]) + (bytes([0x00, 0x04, 0x0D, 0xCC, 0xCC, i & 0xFF, 0x02]) if rng.random() < 0.5 else near_miss(rng, cfg, present))
             t = C('MSG_NODE_LOST')
         m.on_uplink(announcer, t, data)
         repeatable[:] = [(announcer, t, data)]          # only the latest notice can be repeated without changing the tree
